@@ -1199,5 +1199,79 @@ func (bc *boundsCtx) validatorFacts(errV ssa.Value) []condFact {
 			out = append(out, condFact{token.GEQ, bc.lenOf(call.Call.Args[i]), lconst(k)})
 		}
 	}
+	// ... and about the integer it returns with a nil error (a length read and range-checked by a helper): a constant
+	// lower bound, and an upper bound that is a constant or one of the helper's integer parameters
+	if g.Signature.Results().Len() == 2 && intBits(g.Signature.Results().At(0).Type()) > 0 {
+		rs, ok := resultMemo[g]
+		if !ok {
+			rs = &resultSummary{hiParam: -1}
+			resultMemo[g] = rs
+			gbc := newBoundsCtx(bc.p, g)
+			nret := 0
+			loOK := map[int64]bool{-1: true, 0: true, 1: true}
+			hiPrm := map[int]bool{}
+			for i, prm := range g.Params {
+				if intBits(prm.Type()) > 0 {
+					hiPrm[i] = true
+				}
+			}
+			eachInstr(g, func(b *ssa.BasicBlock, _ int, in ssa.Instruction) {
+				r, isRet := in.(*ssa.Return)
+				if !isRet {
+					return
+				}
+				vals := returnedValues(r)
+				if len(vals) != 2 || !isNilConst(vals[1]) {
+					return
+				}
+				nret++
+				z := gbc.zoneAt(b)
+				rt := gbc.term(vals[0])
+				for k := range loOK {
+					if !z.entLE(lconst(k), rt) {
+						delete(loOK, k)
+					}
+				}
+				for i := range hiPrm {
+					if !z.entLE(rt, gbc.term(g.Params[i])) {
+						delete(hiPrm, i)
+					}
+				}
+			})
+			if nret > 0 {
+				for _, k := range []int64{1, 0, -1} {
+					if loOK[k] {
+						rs.lo, rs.hasLo = k, true
+						break
+					}
+				}
+				for i := range hiPrm {
+					rs.hiParam = i
+				}
+			}
+		}
+		var res ssa.Value
+		for _, r := range *call.Referrers() {
+			if ex, isEx := r.(*ssa.Extract); isEx && ex.Index == 0 {
+				res = ex
+			}
+		}
+		if res != nil {
+			if rs.hasLo {
+				out = append(out, condFact{token.GEQ, bc.term(res), lconst(rs.lo)})
+			}
+			if rs.hiParam >= 0 && rs.hiParam < len(call.Call.Args) {
+				out = append(out, condFact{token.LEQ, bc.term(res), bc.term(call.Call.Args[rs.hiParam])})
+			}
+		}
+	}
 	return out
 }
+
+type resultSummary struct {
+	lo      int64
+	hasLo   bool
+	hiParam int
+}
+
+var resultMemo = map[*ssa.Function]*resultSummary{}
